@@ -255,3 +255,57 @@ def check_no_foreign_clear(repo, allowed, props):
                 if short(qn) not in allowed:
                     bad.append("%s:%d" % (short(qn), line))
     return [ob("NFC: event.clear() only in worker loops %s" % sorted(allowed), "WK", not bad, props, {"foreign clears": bad})]
+
+
+def check_sole_waiter(repo, event_fields, worker_funcs, props):
+    """SW: an event that its worker thread clear()s is waited on by that worker only.  A second waiter shares the flag with a
+    thread that resets it: a wake-up meant for the second waiter is consumed by the worker's clear() whenever the waiter is
+    between its check and its wait (lost wake-up), and nothing sets the event again when only the second waiter's predicate
+    changes."""
+    bad = []
+    for qn, f in repo.funcs.items():
+        if short(qn) in worker_funcs:
+            continue
+        for n in ast.walk(f.node):
+            if isinstance(n, ast.Call) and isinstance(n.func, ast.Attribute) and n.func.attr == "wait" \
+                    and isinstance(n.func.value, ast.Attribute) and n.func.value.attr in event_fields:
+                bad.append("%s:%d waits on %s" % (short(qn), n.lineno, _src(n.func.value)))
+    return [ob("SW: the worker's wake-up event (cleared by the worker) has no other waiter", "WK", not bad, props, {"other waiters": bad})]
+
+
+def check_clear_scan_wait(repo, qualname, event_field, props):
+    """W2' (waiter that clears its own event): clear() -> read of the predicate -> wait(); a set() after the clear is never lost."""
+    f = repo.func(qualname)
+    seq = []
+    for n in ast.walk(f.node):
+        if isinstance(n, ast.Call) and isinstance(n.func, ast.Attribute) and n.func.attr in ("wait", "clear") \
+                and isinstance(n.func.value, ast.Attribute) and n.func.value.attr == event_field:
+            seq.append((n.lineno, n.col_offset, n.func.attr))
+    seq.sort()
+    kinds = [s[2] for s in seq]
+    loops = [n for n in ast.walk(f.node) if isinstance(n, ast.While)]
+    ok = kinds == ["clear", "wait"] and len(loops) == 1
+    if ok:
+        body = loops[0].body
+        # clear is the first statement of the loop body, wait the last: every read of the predicate lies between them
+        first, last = body[0], body[-1]
+        ok = any(isinstance(n, ast.Call) and getattr(n.func, "attr", None) == "clear" for n in ast.walk(first)) and \
+            any(isinstance(n, ast.Call) and getattr(n.func, "attr", None) == "wait" for n in ast.walk(last))
+    return [ob("W2' %s: clear() first, then the predicate is read, then wait() (a wake-up after the clear is never lost)" % short(f.qualname), "WK", ok, props, {"order": seq})]
+
+
+def check_set_after_mutation(repo, qualname, container_field, mutators, event_field, props, label):
+    """W1: in `qualname`, every call container.<mutator>() on the field is followed (later in the function, on every path that
+    performed it: the set is not nested deeper than the mutation's enclosing loop/with) by <x>.<event_field>.set()."""
+    f = repo.func(qualname)
+    muts, sets = [], []
+    for n in ast.walk(f.node):
+        if isinstance(n, ast.Call) and isinstance(n.func, ast.Attribute):
+            if n.func.attr in mutators and isinstance(n.func.value, ast.Attribute) and n.func.value.attr == container_field:
+                muts.append((n.lineno, n.col_offset))
+            if n.func.attr == "set" and isinstance(n.func.value, ast.Attribute) and n.func.value.attr == event_field:
+                sets.append((n.lineno, n.col_offset))
+    # a `return` between the mutation and the set would skip the wake-up
+    rets = [(n.lineno, n.col_offset) for n in ast.walk(f.node) if isinstance(n, ast.Return)]
+    ok = bool(muts) and all(any(s > m and not any(m < r < s for r in rets) for s in sets) for m in muts)
+    return [ob("W1 %s: %s" % (short(f.qualname), label), "WK", ok, props, {"mutations": muts, "sets": sets, "returns": rets})]
